@@ -173,7 +173,14 @@ class SegwitChecker(SolutionChecker):
                 raise ScriptError("witness unexpected", errno.WITNESS_UNEXPECTED)
         else:
             witness_program = puzzle_script[2:]
-            if len(solution_stack) > 0:
+            # the scriptSig must be empty (native) or exactly one canonical
+            # push of the redeem script (P2SH): look at its bytes, not the stack
+            expected_solution_script = (
+                self.ScriptTools.compile_push_data_list([puzzle_script])  # type: ignore[attr-defined]
+                if is_p2sh
+                else b""
+            )
+            if tx_context.solution_script != expected_solution_script:
                 err = (
                     errno.WITNESS_MALLEATED_P2SH if is_p2sh else errno.WITNESS_MALLEATED
                 )
